@@ -180,6 +180,18 @@ func codecPalette(r *prng.R) []struct {
 		{"ext16len0", mvRawOf(0xc8, 0, 0, 5)}, {"ext32len0", mvRawOf(0xc9, 0, 0, 0, 0, 9)}, {"ext16", mvRawOf(0xc8, 0, 2, 5, 1, 2)}, {"ext32", mvRawOf(0xc9, 0, 0, 0, 1, 5, 1)},
 		{"time4", mvRawOf(0xd6, 0xff, 1, 2, 3, 4)}, {"time8", mvRawOf(0xd7, 0xff, 1, 2, 3, 4, 5, 6, 7, 8)}, {"time12", mvRawOf(append([]byte{0xc7, 12, 0xff}, make([]byte, 12)...)...)},
 		{"timebad1", mvRawOf(0xd4, 0xff, 1)}, {"timebad0", mvRawOf(0xc7, 0, 0xff)}, {"timebad16", mvRawOf(append([]byte{0xd8, 0xff}, make([]byte, 16)...)...)},
+		{"dupint", mvMapOf(mvIntOf(1), mvIntOf(2), mvIntOf(1), mvIntOf(3), mvIntOf(1), mvRawOf(0xcf, 0xff, 0, 0, 0, 0, 0, 0, 0))}, {"dupintneg", mvMapOf(mvIntOf(1), mvIntOf(2), mvIntOf(1), mvIntOf(-1))},
+		{"dupuint", mvMapOf(mvRawOf(0xcc, 1), mvRawOf(0xcc, 5), mvRawOf(0xcd, 0, 1), mvIntOf(7))}, {"dupuintneg", mvMapOf(mvRawOf(0xcc, 1), mvRawOf(0xcc, 5), mvRawOf(0xcc, 1), mvIntOf(-1))},
+		{"dupbool", mvMapOf(mvIntOf(1), mvBoolOf(true), mvIntOf(1), mvIntOf(1), mvIntOf(1), mvIntOf(0))}, {"dupboolbad", mvMapOf(mvIntOf(1), mvBoolOf(true), mvIntOf(1), mvIntOf(2))},
+		{"dupfloat", mvMapOf(mvIntOf(1), mvRawOf(f64...), mvIntOf(1), mvIntOf(3), mvIntOf(1), mvRawOf(f32...))}, {"dupfloatbad", mvMapOf(mvIntOf(1), mvRawOf(f64...), mvIntOf(1), mvStrOf("s"))},
+		{"dupfkeys", mvMapOf(mvRawOf(0xca, 0x3f, 0xc0, 0, 0), mvIntOf(1), mvRawOf(0xcb, 0x3f, 0xf8, 0, 0, 0, 0, 0, 0), mvStrOf("x"))},
+		{"dupzero", mvMapOf(mvRawOf(0xca, 0, 0, 0, 0), mvIntOf(1), mvRawOf(0xcb, 0x80, 0, 0, 0, 0, 0, 0, 0), mvStrOf("x"))},
+		{"dupnan", mvMapOf(mvRawOf(0xca, 0x7f, 0xc0, 0, 0), mvIntOf(1), mvRawOf(0xca, 0x7f, 0xc0, 0, 0), mvStrOf("x"))},
+		{"dupsubnormal", mvMapOf(mvRawOf(0xca, 0, 0, 0, 3), mvIntOf(1), mvRawOf(0xcb, 0x36, 0xa8, 0, 0, 0, 0, 0, 0), mvStrOf("x"))},
+		{"dupinf", mvMapOf(mvRawOf(0xca, 0xff, 0x80, 0, 0), mvIntOf(1), mvRawOf(0xcb, 0xff, 0xf0, 0, 0, 0, 0, 0, 0), mvStrOf("x"))},
+		{"dupnilthen", mvMapOf(mvIntOf(1), mvNilOf(), mvIntOf(1), mvStrOf("x"), mvIntOf(1), mvIntOf(4))}, {"dupbytes", mvMapOf(mvIntOf(1), mvStrOf("x"), mvIntOf(1), mvIntOf(4))},
+		{"dupstrint", mvMapOf(mvStrOf("k"), mvIntOf(1), mvBinOf([]byte("k")), mvStrOf("x"))}, {"duptime", mvMapOf(mvRawOf(0xd6, 0xff, 1, 2, 3, 4), mvIntOf(1), mvRawOf(0xd6, 0xff, 1, 2, 3, 5), mvIntOf(1))},
+		{"dupdeep", nestMap(47, mvMapOf(mvIntOf(1), mvIntOf(2), mvIntOf(1), mvIntOf(3)))}, {"dupdeeper", nestMap(48, mvMapOf(mvIntOf(1), mvIntOf(2), mvIntOf(1), mvIntOf(3)))},
 		{"c1", mvRawOf(0xc1)}, {"deep40", nestArr(40, mvIntOf(1))}, {"deepmap20", nestMap(20, mvIntOf(1))},
 	}
 }
@@ -658,7 +670,7 @@ func genCodecList(ctx *Ctx, emit func(Case)) {
 		if p == nil {
 			continue
 		}
-		p.confusions(r, pal, ctx.N(150, 0), func(label string, msg []byte) {
+		p.confusions(r, pal, ctx.N(1200, 0), func(label string, msg []byte) {
 			emit(codecCase("codec.list.confusion", s.mode, genericLabel(label), msg))
 		})
 	}
